@@ -36,7 +36,7 @@ PROP = Property(
                  "hash table: the hash function is any function compatible with the key equality (theorems quantify over it)"],
     generated_fns=["ares_buf_len", "ares_buf_consume", "ares_buf_tag", "ares_buf_tag_rollback", "ares_buf_tag_clear",
                    "ares_buf_tag_length", "ares_buf_set_length", "ares_buf_set_position", "ares_buf_get_position",
-                   "ares_buf_is_const", "ares_buf_append_finish",
+                   "ares_buf_is_const", "ares_buf_append_finish", "ares_buf_append_start",
                    # read side: the hand model is proved equal to these (Dsa/Buf_gen_agree.v)
                    "ares_buf_fetch_be16", "ares_buf_fetch_be32", "ares_buf_peek_byte", "ares_buf_fetch_bytes",
                    # containers (Dsa/Dsa_gen_agree.v)
